@@ -435,7 +435,7 @@ func runC20() int {
 		st.perRes[k[:strings.Index(k, ":")]].NonTrivial++
 	}
 	exhaustive := !stopped.Load()
-	if exhaustive && r.ViolationCount() == 0 && !r.HasEngineError() {
+	if exhaustive && !r.HasEngineError() {
 		for _, res := range allResources {
 			ps := st.perRes[res.Name]
 			if ps.NonTrivial*4 < ps.Formulas {
